@@ -125,7 +125,7 @@ def judge(case, reqs, x, holder):
         accepted = [reqs[i][2] for i, r in replies.items() if r[0] == 'changed']
         if len(accepted) == len(reqs):
             for k in {k for r in accepted for k in r}:
-                if final['pid'][k] not in [r[k] for r in accepted if k in r]:
+                if final['pid'].get(k) not in [r[k] for r in accepted if k in r]:
                     viol.append(('conc:accepted-member-change-lost', f'both changes were accepted {accepted} but the cache holds {final["pid"]}'))
     ncalls = len([e for e in LOG if e[0].startswith('write_') and e[0] != 'write_u']) + len([e for e in LOG if e[0] == 'write_u'])
     nacc = len([r for r in replies.values() if r[0] == 'changed'])
